@@ -13,6 +13,7 @@ import (
 	"sort"
 	"strings"
 	"sync"
+	"sync/atomic"
 	"time"
 
 	"github.com/mlange-42/ark/ecs"
@@ -104,6 +105,56 @@ func main() {
 		for _, v := range d.Viol {
 			msgs = append(msgs, v.String())
 		}
+		// worlds of their own, one per goroutine, share nothing (the parallel-simulation pattern): each registers component
+		// types - the universe in its own order and four types no world of this process has seen before - and works with
+		// them while the others do the same. Any state the library keeps per process shows under the race detector.
+		{
+			fresh := eng.ManyPlain()
+			var wg sync.WaitGroup
+			start := make(chan struct{})
+			var failed atomic.Int64
+			for gi := 0; gi < 4; gi++ {
+				gi := gi
+				wg.Add(1)
+				go func() {
+					defer wg.Done()
+					defer func() {
+						if p := recover(); p != nil {
+							failed.Add(1)
+						}
+					}()
+					<-start
+					w := ecs.NewWorld(4)
+					for k := 0; k < u.N; k++ {
+						u.Types[(k*7+gi*5+c)%u.N].RegisterID(w)
+					}
+					var ids []ecs.ID
+					for k := 0; k < 4; k++ {
+						ids = append(ids, ecs.TypeID(w, fresh[(c*4+k)%len(fresh)].Type()))
+					}
+					es := make([]ecs.Entity, 0, 8)
+					for k := 0; k < 8; k++ {
+						es = append(es, w.Unsafe().NewEntity(ids[k%4], ids[(k+1)%4]))
+					}
+					q := ecs.NewUnsafeFilter(w, ids[0]).Query()
+					n := 0
+					for q.Next() {
+						n++
+					}
+					if n != 4 {
+						failed.Add(1)
+					}
+					w.RemoveEntity(es[0])
+					w.Reset()
+				}()
+			}
+			close(start)
+			wg.Wait()
+			res.Counters["independent-world-groups"]++
+			if failed.Load() > 0 {
+				msgs = append(msgs, fmt.Sprintf("%d of 4 independent worlds on goroutines of their own failed", failed.Load()))
+			}
+		}
 		G := gcounts[c%len(gcounts)]
 		desc := []string{d.Cfg.String(), fmt.Sprintf("goroutines=%d alive=%d", G, m.NAlive)}
 		for phase := 0; phase < *reps && len(msgs) == 0; phase++ {
@@ -151,6 +202,48 @@ func main() {
 					}()
 					res.Counters["shared-filters-with-prior-batch-call"]++
 				}
+			}
+			// ... and a Query(rel...) call that is rejected for its arguments (a dead relation target) must leave the
+			// shared filter object usable: nothing it locked may stay locked. Done sequentially, before the goroutines start.
+			var dead eng.EID = -1
+			for e := len(m.Ents) - 1; e >= 0; e-- {
+				if !m.Ents[e].Alive && !d.Handle(eng.EID(e)).IsZero() {
+					dead = eng.EID(e)
+					break
+				}
+			}
+			blocked := false
+			for _, pe := range panel {
+				if pe.tf == nil || dead < 0 {
+					continue
+				}
+				var rc []eng.RelT
+				for _, cmp := range d.FilterOrder(pe.spec) {
+					if u.Types[cmp].IsRel {
+						rc = append(rc, eng.RelT{C: cmp, T: dead})
+						break
+					}
+				}
+				if len(rc) == 0 {
+					continue
+				}
+				func() {
+					defer func() { recover() }()
+					q := pe.tf.Query(d.Rels(rc, d.FilterOrder(pe.spec), c%3))
+					q.Close()
+				}()
+				res.Counters["shared-filters-with-prior-rejected-query"]++
+				if !eng.Completes(func() {
+					defer func() { recover() }()
+					q := pe.tf.Query(nil)
+					q.Close()
+				}) {
+					msgs = append(msgs, fmt.Sprintf("phase %d: a plain Query on shared filter %s blocks for ever after a Query with a dead relation target was rejected", phase, pe.spec))
+					blocked = true
+				}
+			}
+			if blocked {
+				break
 			}
 			// relation argument slices shared between goroutines (callers may well reuse one []ecs.Relation): built by
 			// component type (ecs.Rel[T]), which the library resolves lazily on first use
